@@ -172,6 +172,36 @@ pub fn run(ctx: &mut Ctx) {
             }
         }
     }
+    // every byte: all labels of one and of two bytes through Label::new (65 792 labels), and every character of the two-byte
+    // UTF-8 range (U+0080..U+07FF) plus samples of the wider ones as first / inner / last character of a label inside a name
+    if ctx.family_active("bytes") {
+        let step = if ctx.slow_tool { 509u32 } else { 1 };
+        for k in (0..65_792u32).step_by(step as usize) {
+            if !ctx.take("bytes", k as u64) {
+                continue;
+            }
+            let b: Vec<u8> = if k < 256 { vec![k as u8] } else { vec![((k - 256) >> 8) as u8, (k - 256) as u8] };
+            ctx.case(true, 0xB7E5_0000 ^ k as u64);
+            let want = label_ok(&b);
+            match monitor::guard(|| Label::new(&b[..]).is_ok()) {
+                Err(pn) => ctx.panic_violation("Label::new", &pn, json!({"family": "bytes", "idx": k})),
+                Ok(got) if got != want => ctx.violation("validation", if got { "invalid-label-accepted" } else { "valid-label-rejected" }, format!("Label::new({:02x?}) = {}", b, got), json!({"family": "bytes", "idx": k})),
+                Ok(_) => ctx.count("byte_labels_as_expected"),
+            }
+        }
+        let wide = ['\u{0800}', '\u{20AC}', '\u{4E2A}', '\u{D55C}', '\u{FF21}', '\u{FFFD}', '\u{10000}', '\u{1F600}', '\u{10FFFF}'];
+        let chars: Vec<char> = (0x80u32..0x800).filter_map(char::from_u32).chain(wide.iter().copied()).collect();
+        for (i, c) in chars.iter().enumerate().step_by(if ctx.slow_tool { 97 } else { 1 }) {
+            let idx = 100_000 + i as u64;
+            if !ctx.take("bytes", idx) {
+                continue;
+            }
+            for t in [format!("{}", c), format!("{}a", c), format!("a{}", c), format!("a{}a", c), format!("x.a{}b.local", c), format!("{}.local", c), format!("x.{}", c)] {
+                check_string(ctx, "bytes", idx, &t);
+            }
+            ctx.add("non_ascii_characters_tried", 1);
+        }
+    }
     if ctx.family_active("lengths") {
         let mut idx = 0u64;
         for wire in 245..=262usize {
